@@ -478,18 +478,6 @@ def main_vars(vs, tn):
     return [v for v in vs if tn[v.decl().name()][0] in (0, 1, 2, 3)]
 
 
-def aux_complete(asg, vs, tn, assertions):
-    """recompute the auxiliary (defined) variables from the main ones with the solver, so that
-    a perturbed main assignment is tested on the constraints and not on stale definitions"""
-    s = z3.Solver()
-    s.set("timeout", 20000)
-    for a in assertions:
-        # only the defining equalities are kept by asking for aux values that make as much as
-        # possible true is not needed: definitions are total functions of the main variables
-        pass
-    return asg
-
-
 def candidates(assertions, vs, tn, rng, inst, n_models, n_rand):
     out = []
     seen = set()
@@ -710,7 +698,10 @@ def one_case(spec, rng, n_models, n_rand):
 def main():
     rng = random.Random(payload.get("seed", 0))
     out = []
-    for spec in payload["cases"]:
+    for k, spec in enumerate(payload["cases"]):
+        # /repo draws object ids (uuid) from the global generator; hash-ordered containers of tasks
+        # then iterate in an order that depends on them: fix it per case
+        random.seed("%s/%d" % (payload.get("seed", 0), k))
         out.append(one_case(spec, rng, payload.get("n_models", 6), payload.get("n_rand", 12)))
     implutil.end({"cases": out})
 
